@@ -10,7 +10,7 @@ SPEC = dict(
     rule="random trees from VERIF_SEED (1-12 bodies, thorough: 1/5 of the cases up to 40; chain/star/random/bushy; 17 mobilizer "
          "types x forward/reversed x {identity,translation,general}^2 frames x quaternion/Euler; mass properties from point clouds); "
          "distinct = distinct exported tree records",
-    partial=None,
+    partial='the theorems are stated about the abstract Matrix twin TreeDynAbs.MBT; the executed list/rose-tree recursions of SimbodyModel/TreeDyn.lean are tied to it by refinement lemmas per 6-D operation (TreeDynRefine) and by the simulation theorems listed in notes (TreeDynSim), not by a complete end-to-end equivalence: packing of the u-vector (slice/scatter), building the tree from the parent array and the Gauss-Jordan inverse are carried by the correspondence and the per-case wf check only',
     assumptions=[
         "exported-H mode: H columns (getHCol), Mk_G (getBodySpatialInertiaInGround) and body origins are taken from the "
         "implementation; their computation from q belongs to C03/C05",
